@@ -259,11 +259,13 @@ theorem BSim.appBindReply {l : List WsIn} (e : EP) (k : Nat) (a : Bool) :
   · rename_i b hk
     split
     · exact BSim.refl l e
-    · split
+    · rename_i hal
+      have hal' : b.alive = true := by simpa using hal
+      split
       · exact BSim.refl l e
       · rename_i hoc
         have hoc' : e.outClosed = false := by simpa using hoc
-        refine BSim.one (BStep.reply (bview e l) k b a hk hoc') ?_ rfl
+        refine BSim.one (BStep.reply (bview e l) k b a hk hal' hoc') ?_ rfl
         simp [bview, EP.enqFrame, EP.enq, hoc']
 
 theorem BSim.appBindDrop {l : List WsIn} (e : EP) (k : Nat) :
